@@ -48,8 +48,14 @@ def load_jobs(prop, tier, seed):
     raise RuntimeError("cannot load jobs: " + r.stderr[-2000:])
 
 
+_STOP = {"now": False}
+
+
 def run_worker(job):
     t = time.time()
+    if _STOP["now"]:
+        # development option VERIF_STOP_AT_FIRST=1 (seeded-change evaluation): an unlisted violation was already found, the rest is not run
+        return dict(job=job, status="skipped", inconclusive=[], violations=[], samples=[], validated=0, stats={}, wall=0.0, functions=[])
     try:
         r = subprocess.run([PY_SYM, "-m", "runner.worker"], input=json.dumps(job), capture_output=True, text=True,
                            cwd=VERIF, timeout=job["budget_s"] + 120)
@@ -58,7 +64,10 @@ def run_worker(job):
                     validated=0, stats={}, wall=time.time() - t, functions=[])
     for line in r.stdout.splitlines():
         if line.startswith("RESULT "):
-            return json.loads(line[7:])
+            res = json.loads(line[7:])
+            if os.environ.get("VERIF_STOP_AT_FIRST") and any(not v.get("known") for v in res.get("violations", [])):
+                _STOP["now"] = True
+            return res
     return dict(job=job, status="inconclusive", inconclusive=[dict(reason="worker-crash", detail=(r.stderr or r.stdout)[-1500:])],
                 violations=[], samples=[], validated=0, stats={}, wall=time.time() - t, functions=[])
 
@@ -132,6 +141,8 @@ def main():
     with cf.ThreadPoolExecutor(max_workers=nproc) as ex:
         for r in ex.map(run_worker, jobs):
             results.append(r)
+            if os.environ.get("VERIF_STOP_AT_FIRST") and any(not v.get("known") for v in r.get("violations", [])):
+                _STOP["now"] = True
 
     # ---------------------------------------------------------------- aggregate
     viol, inconc, known_hits = [], [], []
